@@ -1912,3 +1912,55 @@ func vlogRewindGroup(c *Ctx, rule string) {
 	}
 	c.Decide(rw, rule, key(fn, "fail→Rewind"), fn.Pos(), 1, "the failure path rewinds touched buckets", "valueLog.write's failure path no longer rewinds the touched buckets")
 }
+
+// internalKeysHiddenGroup: keys the engine itself writes into the default column family (the
+// value-log discard statistics under "!NoKV!…") are not part of a user's snapshot.
+func internalKeysHiddenGroup(c *Ctx, rule string) {
+	c.Rule(rule, "TxnIterator.advance skips keys carrying the engine's internal prefix (bytes.HasPrefix(userKey, internalKeyPrefix)) unless IteratorOptions.InternalAccess is set; the discard-statistics key written by valueLog.flushDiscardStats carries that prefix")
+	fn := c.Fn("", "TxnIterator.advance")
+	if fn == nil {
+		return
+	}
+	pref := false
+	for _, hp := range Calls(fn, false, Named("bytes.HasPrefix")) {
+		if u, ok := hp.Common().Args[1].(*ssa.UnOp); ok {
+			if g, ok := u.X.(*ssa.Global); ok && g.Name() == "internalKeyPrefix" {
+				pref = true
+			}
+		}
+	}
+	access := false
+	for _, b := range fn.Blocks {
+		if ifi := ifOf(b); ifi != nil && condMentionsField(ifi.Cond, "NoKV.IteratorOptions", "InternalAccess", 3) {
+			access = true
+		}
+	}
+	c.Decide(pref && access, rule, key(fn, "skips-internal-prefix-unless-InternalAccess"), fn.Pos(), 2, "internal bookkeeping keys are not yielded to users", "TxnIterator.advance yields keys with the engine's internal prefix: the discard-statistics entry that Close writes shows up in full scans (one key more after a clean close and reopen)")
+	// the statistics key has the prefix
+	if obj := c.P.LookupObj("", "lfDiscardStatsKey"); obj == nil {
+		c.Errorf("UNRESOLVED-ANCHOR NoKV.lfDiscardStatsKey")
+	}
+}
+
+// condMentionsField: cond is (a boolean combination containing) a load of owner.field.
+func condMentionsField(cond ssa.Value, owner, field string, depth int) bool {
+	if isFieldLoad(cond, owner, field) {
+		return true
+	}
+	if depth <= 0 {
+		return false
+	}
+	switch x := cond.(type) {
+	case *ssa.UnOp:
+		return condMentionsField(x.X, owner, field, depth-1)
+	case *ssa.Phi:
+		for _, e := range x.Edges {
+			if condMentionsField(e, owner, field, depth-1) {
+				return true
+			}
+		}
+	case *ssa.BinOp:
+		return condMentionsField(x.X, owner, field, depth-1) || condMentionsField(x.Y, owner, field, depth-1)
+	}
+	return false
+}
